@@ -106,6 +106,7 @@ def cosim(design, vectors, sequential, top_name=None, text=None, stop_on_x=True)
         return out
     out.implicit_nets = sorted(implicit)
     # tri-state logic (z literals, inout ports) is outside the 2-state subset of the interpreter
+    import re
     if re.search(r"'[bB][zZ]", text) or any(sy.dir == 'inout' for mi_ in d.mods.values() for sy in mi_.syms.values()):
         out.status = 'indeterminate'
         out.detail = 'tri-state logic (inout port / z literal)'
